@@ -253,6 +253,10 @@ UNI_FORMS = [
 # forms only the differential needs (against the frozen build any input is fair): constructs whose layout has edition-specific or
 # width-exact rules -- chains through tuple fields / ? / await / indexing, macro calls holding one-line lists, long operands
 EXTRA_FORMS = [
+    # patterns with an element that cannot be rewritten in the available width (the rest of the statement must still be formatted)
+    "match value { [\"a_string_literal_pattern_that_is_much_longer_than_any_narrow_line_could_ever_hold_on_its_own\", second ,  third] => { first_call( ) ; } _ => { } }",
+    "match value { (\"a_string_literal_pattern_that_is_much_longer_than_any_narrow_line_could_ever_hold_on_its_own\", [a ,b]) | (_, [ .. ]) => run( a,b ), _ => stop( ) }",
+    "let [first_binding ,\"a_string_literal_pattern_that_is_much_longer_than_any_narrow_line_could_ever_hold_on_its_own\", .. ] = slice_value else { return  ; };",
     "let x = some_long_receiver_name.method_call_number_one(argument_one).another_method_call(argument_two).0.1.yet_another_method_call(argument_three);",
     "let y = some_long_receiver_name.method_call_number_one(argument_one).field.0.1.2.yet_another_method_call(argument_three).await?.last_field;",
     "let z = short.0.1.call(); let w = tuple_of_tuples.0 .1 .2; let v = a.0.0.0.0;",
@@ -288,6 +292,11 @@ EXTRA_FORMS = [
     "let t = (a, b, c, d, e, f, g, h, i, j, k, l, m, n, o, p, q, r, s, t, u, v, w, x, y, z, aa, bb, cc, dd, ee);",
 ]
 EXTRA_ITEMS = [
+    # several renames of one crate / several declarations whose names differ only where byte order and version order disagree
+    "extern crate serde as serde9; extern crate serde as serde10; extern crate serde as serde_2; extern crate serde as serdeX; extern crate serde as Serde1;",
+    "extern crate b10; extern crate b9; extern crate b_2; extern crate bX; extern crate a as z10; extern crate a as z9;",
+    "mod m10; mod m9; mod m_2; mod mX; mod M1;",
+    "use a::{x10, x9, x_2, xX, X1}; use b10::c; use b9::c; use b_2::c; use bX::c;",
     "fn long_signature<T: FirstBound + SecondBound, U>(first_parameter: FirstType<T>, second_parameter: &mut U) -> ReturnType<T, U> where U: ThirdBound { body() }",
     "impl<T: FirstBound + SecondBound + ThirdBound + FourthBound + FifthBound> SomeTraitName<T> for SomeTypeName<T> where T: Sized {}",
     "pub struct Record { pub first_field: FirstFieldType, pub(crate) second_field: SecondFieldType<Generic>, third: Option<Box<Third>> }",
